@@ -1,4 +1,5 @@
 use crate::error::Converter;
+use crate::xml;
 use crate::Result;
 use roxmltree::Node;
 
@@ -15,7 +16,7 @@ impl DateTime {
     pub(crate) fn from_node(node: &Node) -> Result<Option<Self>> {
         let gps_time_text = node
             .children()
-            .find(|n| n.has_tag_name("dateTimeValue") && n.attribute("type") == Some("Float"))
+            .find(|n| xml::has_name(n, "dateTimeValue") && n.attribute("type") == Some("Float"))
             .invalid_err("Unable to find XML tag 'dateTimeValue' with type 'Float'")?
             .text();
         // An empty tag means zero, this is how some E57 libraries write zero values
@@ -25,7 +26,7 @@ impl DateTime {
             .invalid_err("Failed to parse inner text of XML tag 'dateTimeValue' as double")?;
 
         let atomic_reference_node = node.children().find(|n| {
-            n.has_tag_name("isAtomicClockReferenced") && n.attribute("type") == Some("Integer")
+            xml::has_name(n, "isAtomicClockReferenced") && n.attribute("type") == Some("Integer")
         });
         let atomic_reference = if let Some(node) = atomic_reference_node {
             node.text().unwrap_or("0").trim() == "1"
